@@ -46,6 +46,10 @@ pub struct FileSpec {
     /// The file starts with a UTF-8 byte order mark (as Windows editors write it).
     #[serde(default)]
     pub bom: bool,
+    /// != 0: the start tags of this file use the other spellings the grammar allows (unquoted and
+    /// single-quoted values, bare names, blanks around `=`), chosen per tag from this number.
+    #[serde(default)]
+    pub spelling: u64,
 }
 
 #[derive(Serialize, Deserialize, Clone, Debug, PartialEq, Default)]
@@ -396,15 +400,53 @@ pub fn render_start_tag(b: &BlockSpec) -> String {
 }
 
 pub fn render_start_tag_sep(b: &BlockSpec, first_sep: char) -> String {
+    render_start_tag_spelled(b, first_sep, 0)
+}
+
+/// `spelling` != 0 picks, per attribute, one of the other spellings the tag grammar allows for
+/// the same (name, value): an unquoted value (letters, digits, `-`, `_` only), single quotes, a
+/// bare name for an empty value, blanks around `=`, several blanks or a TAB between attributes.
+pub fn render_start_tag_spelled(b: &BlockSpec, first_sep: char, spelling: u64) -> String {
     let mut s = String::from("<block");
     if b.attrs.is_empty() && first_sep != ' ' {
         s.push(first_sep);
     }
+    let mut rng = crate::rng::Rng::new(spelling);
     for (i, (k, v)) in b.attrs.iter().enumerate() {
-        s.push(if i == 0 { first_sep } else { ' ' });
+        if spelling == 0 {
+            s.push(if i == 0 { first_sep } else { ' ' });
+            s.push_str(k);
+            s.push('=');
+            s.push_str(&quote_attr(v));
+            continue;
+        }
+        match (i, rng.below(6)) {
+            (0, _) => s.push(first_sep),
+            (_, 0) => s.push_str("  "),
+            (_, 1) => s.push('\t'),
+            _ => s.push(' '),
+        }
         s.push_str(k);
-        s.push('=');
-        s.push_str(&quote_attr(v));
+        let word = !v.is_empty() && v.chars().all(|c| c.is_alphanumeric() || c == '-' || c == '_');
+        let roll = rng.below(12);
+        if v.is_empty() && roll < 5 {
+            continue; // a bare name: the value is the empty string
+        }
+        s.push_str(match rng.below(8) {
+            0 => " = ",
+            1 => "= ",
+            2 => " =",
+            _ => "=",
+        });
+        if word && roll < 5 {
+            s.push_str(v);
+        } else if !v.contains('\'') && roll < 8 {
+            s.push('\'');
+            s.push_str(v);
+            s.push('\'');
+        } else {
+            s.push_str(&quote_attr(v));
+        }
     }
     s.push('>');
     s
@@ -450,6 +492,7 @@ pub const POISON_TAIL: &str = "<block name=\"poison-unclosed\" keep-sorted=\"asc
 fn render_block(
     b: &BlockSpec,
     tab_tags: bool,
+    spelling: u64,
     leader: &str,
     idx_path: &mut Vec<usize>,
     lines: &mut Vec<String>,
@@ -457,7 +500,15 @@ fn render_block(
 ) {
     let slot = out.len();
     let start_line = lines.len() + 1;
-    lines.push(format!("{leader} {}", render_start_tag_sep(b, if tab_tags { '\t' } else { ' ' })));
+    let spell = if spelling == 0 {
+        0
+    } else {
+        idx_path.iter().fold(spelling, |a, i| crate::rng::mix_n(a, *i as u64 + 1)) | 1
+    };
+    lines.push(format!(
+        "{leader} {}",
+        render_start_tag_spelled(b, if tab_tags { '\t' } else { ' ' }, spell)
+    ));
     out.push(BlockLayout {
         path: idx_path.clone(),
         start_line,
@@ -471,7 +522,7 @@ fn render_block(
     }
     for (i, c) in b.children.iter().enumerate() {
         idx_path.push(i);
-        render_block(c, tab_tags, leader, idx_path, lines, out);
+        render_block(c, tab_tags, spelling, leader, idx_path, lines, out);
         idx_path.pop();
     }
     for l in &b.tail {
@@ -503,7 +554,7 @@ pub fn render_file(f: &FileSpec, poisoned: bool) -> RenderedFile {
     }
     for (i, b) in f.blocks.iter().enumerate() {
         let mut p = vec![i];
-        render_block(b, f.tab_tags, leader, &mut p, &mut lines, &mut blocks);
+        render_block(b, f.tab_tags, f.spelling, leader, &mut p, &mut lines, &mut blocks);
         if wrapper.is_none() {
             lines.push(String::new());
         }
